@@ -364,6 +364,13 @@ def build_items(tier, seed):
         cs = [dict(senders=[[O("11"), O("2"), 66, 0], [O("21"), O("11"), 5, h / 2.0]], tmo=[25, 75], cost=1, lat=lat, seed=seed, id0=h + 200, slow=[O("11")])
               for h in range(0, 30 if tier == "quick" else 60)]
         items.append((cs, 0))
+    # a child's frame that the waiting origin must FORWARD sits in its RX FIFO ahead of its own NETWORK_ACK, and that nested
+    # forward fails (slow origin 0o1, fast relays; every single failure point): the acknowledgement already received must survive
+    for lat in (0, 1, 2):
+        for h0 in range(0, 40, 8):
+            cs = [dict(senders=[[O("1"), O("2"), 66, 0], [O("11"), O("0"), 5, h / 2.0]], tmo=[25, 75], cost=1, lat=lat, seed=seed, id0=h + 300, slow=[O("1")])
+                  for h in range(h0, h0 + 8)]
+            items.append((cs, 1))
     # multicasts of ack-range types never cause a NETWORK_ACK
     for lvl in (0, 1, 2):
         items.append(([dict(src=O("1"), dst=O("0"), mtype=t, mlen=3, tmo=[25, 75], cost=0, lat=0, seed=seed, id0=9, multicast=True, multicast_level=lvl)
